@@ -29,6 +29,7 @@ ENGINE = "net"
 LEVEL = "exploration"
 TECHNIQUE = "deterministic simulation: seeded interleaving of deliveries, application steps, client reads, clock advances and connection loss on a pipelined connection"
 QUICK_RUNS = 96000
+TWIN_P = 0.08   # this share of the runs drives two independent instances of the scenario one after the other (detsim.runner._run_scenario)
 BATCH = 200
 RUN_WALL_LIMIT_S = 90   # a run takes milliseconds; the wall-clock watchdog only has to survive machine stalls under heavy shared load
 COMPONENTS = {
